@@ -452,6 +452,12 @@ class Process:
 
     def _raise_if_pid_reused(self):
         """Raises NoSuchProcess in case process PID has been reused."""
+        if self._gone and not self._pid_reused:
+            # The process was already seen gone by a previous call: since
+            # then its PID may have been assigned to another process, and
+            # is_running() (which caches that answer) can no longer tell.
+            msg = "process no longer exists"
+            raise NoSuchProcess(self.pid, self._name, msg=msg)
         if self._pid_reused or (not self.is_running() and self._pid_reused):
             # We may directly raise NSP in here already if PID is just
             # not running, but I prefer NSP to be raised naturally by
